@@ -190,6 +190,17 @@ UNITS = {
             "pub fn value_at(&self, index: usize) -> Result<&'a [u8]>",
         ],
     },
+    "record": {
+        "src": "src/records/builder.rs",
+        "anchors": [
+            "pub fn new(schema: &'a Schema) -> Self",
+            "pub fn reset(&mut self)",
+            "pub fn set_null(&mut self, col_idx: usize)",
+            "pub fn set_int4(&mut self, col_idx: usize, value: i32) -> Result<()>",
+            "pub fn set_blob(&mut self, col_idx: usize, data: &[u8]) -> Result<()>",
+            "pub fn build(&self) -> Result<Vec<u8>>",
+        ],
+    },
 }
 
 PROPS = {
@@ -293,6 +304,7 @@ PROPS = {
     },
     "C30": {
         "claimed": False,
+        "na_reason": "Attempted, not decided: with the CPU-feature probe stubbed nondeterministically the end-to-end bounded obligation (find_key_simd == reference search on scaled 256-byte pages, <= 12 slots) through Kani's models of the AVX2 intrinsics did not finish in 40 min; only the scalar narrowing's window invariant verifies (10 min). The scalar path alone does not decide 'regardless of CPU feature availability', so the property is not claimed. (The AVX2 narrowing discards a batch whose prefixes all equal the target: the baseline's three always-failing simd_scan tests; DESIGN.md section 6.)",
         "level": "other",
         "level_text": "bounded", "level_note": "", "technique": "Kani bounded",
         "kani_units": ["simd_scan"],
@@ -301,6 +313,7 @@ PROPS = {
     },
     "C29": {
         "claimed": False,
+        "na_reason": "Attempted, not decided: per-operation contracts for one leaf page (contracts/kani/leaf_ops.rs: init / insert_cell_at / delete_cell / update_cell_value_in_place over an arbitrary well-formed page, scaled pages, <= 3 cells) exceeded 25 min per obligation in CBMC; the tree-level clauses (separators, equal depth, leaf chain, no page reachable twice) need a ghost tree over split/propagate and were not attempted. Not claimed.",
         "level": "other",
         "level_text": "Bounded stand-in, single-node clauses only: for an ARBITRARY well-formed leaf page (every page byte symbolic) with <= 3 cells and keys/values of 1..3 bytes, compiled with pages scaled to 256 bytes, LeafNodeMut::init / insert_cell_at / delete_cell / update_cell_value_in_place keep the page structurally valid (header counters consistent, slot and cell areas inside the page and disjoint, cells pairwise disjoint, slot prefix == key prefix, keys strictly increasing) and change exactly the addressed entry. Partial: separators bound subtrees, equal leaf depth, leaf chain and no page reachable twice are tree-level clauses over split/propagate and are NOT covered.",
         "level_note": "Bounded (cells <= 3, key/value <= 3 bytes, PAGE_SIZE = 256 via the cfg hook, fragmentation below the compaction threshold). Interior nodes and all multi-page invariants not covered.",
@@ -308,5 +321,19 @@ PROPS = {
         "kani_units": ["leaf_ops"],
         "harness_timeout": 1500,
         "explanation": "Bounded per-operation page invariant on one leaf page (scaled page size, <= 3 cells).",
+    },
+    "C31": {
+        "claimed": False,
+        "na_reason": "Attempted, not decided: the bounded round-trip / reset-equals-fresh obligations for the schema (INT4, BLOB) (contracts/kani/record.rs) exceeded 45 GB in CBMC (RecordBuilder state is Vec<Vec<u8>> + Vec<ColumnValue> + Schema with String names). Not claimed.",
+        "level": "other",
+        "level_text": "Bounded stand-in by schema shape: for the schema (INT4, BLOB), every INT4 value, every NULL mask and blob payloads of 0..2 bytes, RecordBuilder::build followed by RecordView reads returns the same NULL flags, value and bytes through the plain and the _opt getters; and a record built after reset() is byte-identical to one built by a fresh builder whatever row was staged before the reset. Partial: other column types, more than one variable column, arrays/composites/JSONB and the OwnedValue glue are not covered.",
+        "level_note": "Bounded by schema shape (one fixed + one variable column) and payload length <= 2. Trusted: Vec/String as compiled by Kani.",
+        "technique": "Kani bounded Hoare triples on the real RecordBuilder/RecordView (round trip and reset-equals-fresh)",
+        "kani_units": ["record"],
+        "harness_timeout": 1500,
+        "mem_gb": 45,
+        "isolate": True,
+        "jobs": 2,
+        "explanation": "Bounded by schema shape: (INT4, BLOB), payload <= 2 bytes.",
     },
 }
